@@ -55,7 +55,11 @@ def _run(prog, crates=("kanata",)):
                              "parameter of %s: two same-typed arguments are exchanged (the call type-checks, every use of the two "
                              "lists / values inside %s is crossed)" % (f.norm.split("::")[-1], cal, X, P[i], X, cal, cal))
                     continue
-                if X.endswith(P[i]) and g.norm != f.norm and f.norm.split("::{closure")[0] != g.norm:
+                if X.endswith(P[i]) and g.norm != f.norm and f.norm.split("::{closure")[0] != g.norm and f.origin(bi) != g.norm:
+                    if getattr(f, "inlined", None):
+                        # the names in scope are those of the function the call was written in, not of the functions its body
+                        # was inlined into: only judged on functions that are analysed as they were written
+                        continue
                     if lnames is None:
                         lnames = set()
                         for l in range(1, 800):
